@@ -377,6 +377,11 @@ func (c *compiler) addShift(from, to *state) {
 	if len(from.shifts) == 0 && len(from.reduce) > 0 {
 		from.lr0 = false
 	}
+	if int(to.symbol) < c.grammar.Terminals && len(from.reduce) > 0 {
+		// A terminal shift (eoi) next to a reduction needs a lookahead to choose between them,
+		// even when the state had only nonterminal shifts so far.
+		from.lr0 = false
+	}
 	from.shifts = append(from.shifts, to.index)
 	if len(from.shifts) == 1 {
 		return
